@@ -26,7 +26,7 @@ class CsrDecWorld(World):
     stub_components = ("leaf CSR buses (stub runs)", "mock registers (flat runs)",
                        "CSR initiator (seeded agent)")
     fault_kinds = ("byzantine_cycle", "both_strobes", "unassigned_address", "window_edge_address",
-                   "abort", "gap", "rejected_re_add", "queried_or_elaborated_while_being_populated",
+                   "abort", "gap", "rejected_re_add", "rejected_invalid_add", "queried_or_elaborated_while_being_populated",
                    "memory_map_assigned_through_setter")
     assumptions = (
         "Amaranth's Python RTL simulator executes the elaborated netlist faithfully",
@@ -42,6 +42,7 @@ class CsrDecWorld(World):
     # ------------------------------------------------------------------------------------------
     def _gen_tree(self, rng, aw, depth, kind):
         node = {"t": "dec", "aw": aw, "al": rng.choice([0, 0, 1, 2]), "omit": int(rng.chance(0.3)),
+                "bad_add": rng.choice(["dw", "not_interface"]) if rng.chance(0.12) else None,
                 "subs": [],
                 "mid": rng.choice(["elab", "patterns", "resources"]) if rng.chance(0.12) else None,
                 "mid_at": rng.below(3), "own_map": int(rng.chance(0.06))}
@@ -178,6 +179,19 @@ class CsrDecWorld(World):
                     raise Violation("C06", "duplicate-subordinate-accepted", 0, "")
                 except ValueError:
                     counter.append("readd")
+        if node.get("bad_add"):
+            # fault: an add() the decoder has to refuse (and survive unchanged)
+            if node["bad_add"] == "dw":
+                bad = csr.Interface(addr_width=1, data_width=dw * 2, path=("bad",))
+                bad.memory_map = MemoryMap(addr_width=1, data_width=dw * 2)
+            else:
+                bad = object()
+            try:
+                dec.add(bad, name="bad")
+                raise Violation("C06", "invalid-subordinate-accepted", 0,
+                                f"add() accepted a subordinate it must refuse ({node['bad_add']})")
+            except (ValueError, TypeError):
+                counter.append("bad_add")
         return dec.bus
 
     @staticmethod
@@ -201,6 +215,7 @@ class CsrDecWorld(World):
         counter = [0]
         root = self._build(config["tree"], dw, mods, leaves, counter)
         stats.fault("rejected_re_add", counter.count("readd"))
+        stats.fault("rejected_invalid_add", counter.count("bad_add"))
         stats.fault("queried_or_elaborated_while_being_populated", counter.count("mid"))
         stats.fault("memory_map_assigned_through_setter", counter.count("own_map"))
         aw = config["tree"]["aw"]
@@ -326,6 +341,7 @@ class CsrDecWorld(World):
         counter = [0]
         root = self._build(config["tree"], dw, mods, leaves, counter)
         stats.fault("rejected_re_add", counter.count("readd"))
+        stats.fault("rejected_invalid_add", counter.count("bad_add"))
         stats.fault("queried_or_elaborated_while_being_populated", counter.count("mid"))
         stats.fault("memory_map_assigned_through_setter", counter.count("own_map"))
         aw = config["tree"]["aw"]
